@@ -6,13 +6,15 @@ because of the event, per socket in arrival order, as  <conn>><msg>,...
 
 Events (same text as the model driver's input):
   C<uid>              connect with the credentials of <uid> (the process switches its
-                      effective uid around connect(); the sandbox runs as root),
-                      AUTH EXTERNAL; "accepted" or "waiting" (nobody accept()ed)
+                      effective uid around connect(); the sandbox runs as root) and send a
+                      bare "AUTH" line: "accepted" (the server answers REJECTED <mechanisms>)
+                      or "waiting" (nobody accept()ed)
+  U<c>                AUTH EXTERNAL <uid>, BEGIN: "authok"
   H<c>                Hello
   D<c>                close the socket
   R<c>,<hex>,<flags>  RequestName          L<c>,<hex>  ReleaseName
   A<c>,<rule|x>       AddMatch             V<c>,<rule|x>  RemoveMatch   (x: unparsable text)
-  K<c>,<d>,<serial>,<0|1>   method call from c to d's unique name (1: NO_REPLY_EXPECTED)
+  K<c>,<d>,<serial>,<0|1>,<rs>   method call from c to d's unique name (1: NO_REPLY_EXPECTED; rs != 0: with a REPLY_SERIAL field)
   Y<d>,<c>,<serial>   method return from d to c's unique name
   T<c>,<serial>       wait until c got the NoReply error for that call (reply_timeout configured)
   E<c>,<tag>          signal that rule <tag> selects
@@ -79,6 +81,8 @@ class Session:
         self.unique = {}           # index -> unique name
         self.by_name = {}          # unique name -> index
         self.skip_serial = {}      # index -> set of serials whose replies are not part of the comparison
+        self.uid = {}              # index -> uid it connected as
+        self.authed = set()        # indices that completed authentication
 
     # ---- canonical text -------------------------------------------------------
     def key(self, s):
@@ -135,10 +139,11 @@ class Session:
 
     # ---- plumbing ---------------------------------------------------------------
     def live(self):
-        return [(i, c) for i, c in enumerate(self.clients) if c is not None]
+        """connections that can do a round trip (authenticated, open)"""
+        return [(i, c) for i, c in enumerate(self.clients) if c is not None and i in self.authed]
 
     def control(self):
-        return self.clients[0] if self.clients and self.clients[0] is not None else None
+        return self.clients[0] if self.clients and self.clients[0] is not None and 0 in self.unique else None
 
     def ctl_barrier(self):
         c = self.control()
@@ -164,7 +169,7 @@ class Session:
                 if time.time() > t_end or not self.d.alive():
                     raise
                 time.sleep(0.002)
-        c.sock.sendall(b"\0AUTH EXTERNAL " + str(uid).encode().hex().encode() + b"\r\n")
+        c.sock.sendall(b"\0AUTH\r\n")
         return c
 
     def connect(self, uid):
@@ -189,10 +194,19 @@ class Session:
             c.close()
             return None
         line = c._readline()
+        if not line.startswith(b"REJECTED"):
+            raise Broken("unexpected answer to a bare AUTH: %r" % (line,))
+        return c
+
+    def authenticate(self, idx):
+        c = self.clients[idx]
+        uid = self.uid[idx]
+        c.sock.sendall(b"AUTH EXTERNAL " + str(uid).encode().hex().encode() + b"\r\n")
+        line = c._readline()
         if not line.startswith(b"OK"):
             raise Broken("authentication as uid %d refused: %r" % (uid, line))
         c.sock.sendall(b"BEGIN\r\n")
-        return c
+        self.authed.add(idx)
 
     def collect(self, actor, op_serial, op_kind):
         outs = []
@@ -247,6 +261,7 @@ class Session:
             if c is None:
                 return ["%d>waiting" % idx] + self.collect(None, None, kind)
             self.clients.append(c)
+            self.uid[idx] = uid
             return ["%d>accepted" % idx] + self.collect(None, None, kind)
         if kind == "Q":
             name = bytes.fromhex("" if parts[0] == "-" else parts[0]).decode("utf-8")
@@ -270,6 +285,13 @@ class Session:
         if c is None:
             raise Broken("event %s names a connection that is not open" % ev)
         serial = None
+        if kind == "U":
+            if actor in self.authed:
+                raise Broken("event %s: already authenticated" % ev)
+            self.authenticate(actor)
+            return ["%d>authok" % actor] + self.collect(None, None, kind)
+        if kind != "D" and actor not in self.authed:
+            raise Broken("event %s by a connection that has not authenticated" % ev)
 
         def hdr(member):
             return {F_PATH: "/org/freedesktop/DBus", F_INTERFACE: BUS, F_DESTINATION: BUS, F_MEMBER: member}
@@ -299,9 +321,12 @@ class Session:
                 self.by_name[r.body[0]] = actor
             return self.collect(actor, serial, kind)
         if kind == "K":
-            d, serial, noreply = int(parts[1]), int(parts[2]), parts[3] == "1"
+            d, serial, noreply, rs = int(parts[1]), int(parts[2]), parts[3] == "1", int(parts[4])
             dest = self.unique.get(d, ":0.%d" % d)            # ":0.N" is never assigned by the bus
-            m = rawbus.Msg(METHOD_CALL, 1 if noreply else 0, serial, {F_PATH: "/t", F_INTERFACE: T_IFACE, F_MEMBER: "Ping", F_DESTINATION: dest})
+            fields = {F_PATH: "/t", F_INTERFACE: T_IFACE, F_MEMBER: "Ping", F_DESTINATION: dest}
+            if rs:
+                fields[F_REPLY_SERIAL] = rs
+            m = rawbus.Msg(METHOD_CALL, 1 if noreply else 0, serial, fields)
             self.send_only(c, m)
             return self.collect(actor, serial, kind)
         if kind == "Y":
@@ -338,8 +363,9 @@ class Session:
         raise Broken("bad event " + ev)
 
     def close(self):
-        for i, c in self.live():
-            c.close()
+        for c in self.clients:
+            if c is not None:
+                c.close()
         return self.d.stop()
 
 
